@@ -938,10 +938,11 @@ impl Monitor {
         }
         let ok = usable.iter().any(|s| {
             let dc_rcv = s.delivery_count.unwrap_or(initial);
-            let limit = dc_rcv.wrapping_add(s.link_credit);
-            // credit available = limit - dc_snd (serial), must be >= 1
-            let avail = limit.wrapping_sub(dc_snd);
-            avail >= 1 && avail <= 0x7fff_ffff
+            // deliveries started since the receiver's count (serial distance, so < 2^31) must be
+            // fewer than the credit, which is a plain uint and may be as large as 2^32-1 ("unlimited")
+            // (negative when the receiver's count is ahead, as after a drain)
+            let used = dc_snd.wrapping_sub(dc_rcv) as i32 as i64;
+            (s.link_credit as i64) - used >= 1
         });
         if !ok {
             let stmts: Vec<_> = usable.iter().map(|s| (s.delivery_count, s.link_credit)).collect();
